@@ -12,10 +12,10 @@ Con(cid, kind, rows, static, order, morder, model, res, rev, dict, kappa) ==
      model |-> model, res |-> res, rev |-> rev, dict |-> dict, kappa |-> kappa, lo |-> -1, hi |-> 2]
 Ev(cid) == [a |-> "ev", c |-> cid, kind |-> "", rows |-> <<>>, static |-> FALSE, order |-> "", morder |-> "", model |-> <<>>,
             res |-> "", rev |-> FALSE, dict |-> 0, kappa |-> 0, lo |-> 0, hi |-> 0]
-KindsFor(res) == IF res \in {"per", "per0"} THEN {"periodic"} ELSE IF res = "vec" THEN {"pinn"} ELSE {"pinn", "mean"}
+KindsFor(res) == IF res \in {"per", "per0", "per_d"} THEN {"periodic"} ELSE IF res = "vec" THEN {"pinn"} ELSE {"pinn", "mean"}
 Single == {[dicts |-> <<[f |-> 1, g |-> 3]>>,
             ops |-> <<Con(1, kind, SubSeq(RowsA, 1, n), st, ord, mord, <<2, -1, 3>>, res, rev, 1, IF res = "ku_x" THEN 3 ELSE 0), Ev(1), Ev(1)>>] :
-              res \in {"u_f", "ku_x", "ux_t", "echo", "echofg", "vec", "per", "per0"}, kind \in {"pinn", "mean", "periodic"},
+              res \in {"u_f", "ku_x", "ux_t", "echo", "echofg", "vec", "per", "per0", "per_d"}, kind \in {"pinn", "mean", "periodic"},
               n \in {1, 2, 4}, st \in BOOLEAN, ord \in {"xt", "tx"}, mord \in {"xt", "tx"}, rev \in BOOLEAN}
 SingleOK == {s \in Single : s.ops[1].kind \in KindsFor(s.ops[1].res)}
 \* ---- histories
